@@ -474,8 +474,7 @@ func runForced(e *lib.Env, rs []rec, ps []prog, sched []mstep, kind string) obs 
 				}
 			case "WPut":
 				o.Events = append(o.Events, oev{Kind: "Put", K: p.K})
-			case "WExp", "WPatch":
-				// (a body patch re-indexes the record too: its expiry-changed flag is sticky)
+			case "WExp":
 				if _, ok := find(st.pre, p.K); ok {
 					o.Events = append(o.Events, oev{Kind: "Put", K: p.K})
 				}
@@ -819,6 +818,10 @@ func main() {
 	add(runForced(e, []rec{{1, 0, 0, -5}, {2, 0, 0, 7}},
 		[]prog{{Kind: "PE", Hm: 1, P: plan{Kind: "none"}, Nst: 2}, {Kind: "WDel", K: 1}, {Kind: "SE", Hm: 5, Od: true, P: plan{Kind: "none"}}},
 		[]mstep{{"Patched", 0}, {"Finish", 1}, {"Finish", 0}, {"Finish", 2}}, "witness-delete-before-reindex"))
+	// open finding: the final re-index of a PatchExpired puts back a record another claimer took since
+	add(runForced(e, []rec{{2, 2, 0, -9}, {3, 0, 0, 7}},
+		[]prog{{Kind: "PE", Hm: 1, P: plan{Kind: "none"}, Nst: 2, Nexp: i64(50)}, {Kind: "SM", Hm: 1, P: plan{Kind: "eq", A: 2}}, {Kind: "SM", Hm: 1, P: plan{Kind: "eq", A: 2}}},
+		[]mstep{{"Patched", 0}, {"Selected", 1}, {"Finish", 0}, {"Selected", 2}, {"Finish", 1}, {"Finish", 2}}, "witness-reindex-after-claim"))
 	if both, detail := crossIndexWitness(e); both {
 		idx := add(runSeq(e, five[:1], []prog{{Kind: "SE", Hm: 1, Od: true, P: plan{Kind: "none"}}}, "cross-index-anchor"))
 		run.Violate(idx, "no record to two claimers", "same_key_to_claimers_on_different_indexes", detail)
